@@ -41,7 +41,8 @@ class Tracker:
             self.owner[t[1]] = "user"
         elif t[0] == "D":
             self.scripts[t[1]] = {"deps": lst(t[2]), "ifc": lst(t[3]), "always": t[4] == "1", "stamp": t[5] == "1",
-                                  "out": t[6], "payload": t[7], "cat": t[8] == "1", "exit": int(t[9])}
+                                  "out": t[6], "payload": t[7], "cat": t[8] == "1", "exit": int(t[9]),
+                                  "tol": len(t) > 10 and t[10] == "1"}
         elif t[0] == "R":
             self.user.pop(t[1], None)
             self.scripts.pop(t[1], None)
@@ -168,6 +169,8 @@ def check_history(line, real, want):
     fails = []
     last_build = None          # (step index, targets, rc, had edits since)
     failed_in_prev = {}        # target -> True if its script failed in the previous build command and no edit since
+    last_any_failed = False
+    tolerated_prev = {}        # target -> failed deps: its script succeeded in the previous build command although those deps failed
     edits_since_build = True
     counted = {"fresh_checked": 0, "fresh_skipped": 0, "noop_checked": 0, "fail_checked": 0, "user_checked": 0, "query_checked": 0}
     user_before = None
@@ -178,6 +181,7 @@ def check_history(line, real, want):
             tr.apply_digest(digest)
             edits_since_build = True
             failed_in_prev = {}
+            tolerated_prev = {}
             prev_lists = {}
             continue
         # a command
@@ -255,10 +259,42 @@ def check_history(line, real, want):
             # ---- C05
             if "fail" in want:
                 failed_now = [n for n, c in dones.items() if c != 0]
+                any_tol = any(sc.get("tol") for sc in tr.scripts.values())
                 if failed_now:
                     counted["fail_checked"] += 1
-                    if rc == 0:
-                        fails.append({"oracle": "a needed script failed but the command exited 0", "step": i, "cmd": " ".join(t), "failed": failed_now})
+                    if not any_tol:
+                        if rc == 0:
+                            fails.append({"oracle": "a needed script failed but the command exited 0", "step": i, "cmd": " ".join(t), "failed": failed_now})
+                    else:
+                        # some scripts say "redo-ifchange ... || true": whether a failure below them reaches the
+                        # command is their decision; redo's part is (a) a requested target that failed fails the
+                        # command, (b) the redo-ifchange of a failing dependency fails, so a script that does
+                        # not tolerate that cannot have succeeded
+                        direct = [n for n in ts if dones.get(n, 0) != 0]
+                        if direct and rc == 0:
+                            fails.append({"oracle": "a requested target failed but the command exited 0", "step": i, "cmd": " ".join(t), "failed": direct})
+                        if t[1] == "ifchange":
+                            for n in dict.fromkeys(trace):
+                                rl = tr.rule_for(n)
+                                if rl and dones.get(n) == 0 and not tr.scripts[rl].get("tol"):
+                                    badd = [d for d in tr.scripts[rl]["deps"] if dones.get(d, 0) != 0]
+                                    if badd:
+                                        fails.append({"oracle": "a script succeeded although the redo-ifchange of a failing dependency must have failed",
+                                                      "step": i, "cmd": " ".join(t), "target": n, "failed_deps": badd})
+                # no dependent of a failed target is recorded as up to date: a script that tolerated the failure
+                # and succeeded is out of date in the next run
+                for n, ds in tolerated_prev.items():
+                    if ts and n == ts[0] and n not in trace and tr.rule_for(n) and tr.owner.get(n) != "user":
+                        fails.append({"oracle": "a dependent of a failed target was treated as up to date", "step": i, "cmd": " ".join(t),
+                                      "target": n, "failed_deps": ds, "trace": trace})
+                    counted["tolerated_checked"] = counted.get("tolerated_checked", 0) + (1 if ts and n == ts[0] else 0)
+                tolerated_prev = {}
+                for n in dict.fromkeys(trace):
+                    rl = tr.rule_for(n)
+                    if rl and dones.get(n) == 0 and tr.scripts[rl].get("tol"):
+                        badd = [d for d in tr.scripts[rl]["deps"] if dones.get(d, 0) != 0]
+                        if badd:
+                            tolerated_prev[n] = badd
                 for n in failed_in_prev:
                     if n in tr.closure(ts) and n not in trace and tr.owner.get(n) != "user" and tr.rule_for(n):
                         # failed last run, nothing changed, requested again (directly or through its dependents) -> must be retried
@@ -282,23 +318,32 @@ def check_history(line, real, want):
                                       "content": got, "from_scratch": exp})
             # ---- C02 repeated build runs nothing
             if "noop" in want and last_build is not None and not edits_since_build and rc == 0 and last_build[2] == 0 \
-                    and t[1] == "ifchange" and set(ts) <= set(last_build[1]) and not any(s["always"] for s in tr.scripts.values()):
+                    and t[1] == "ifchange" and set(ts) <= set(last_build[1]) and not any(s["always"] for s in tr.scripts.values()) \
+                    and not last_any_failed:
                 counted["noop_checked"] += 1
                 if trace:
                     fails.append({"oracle": "repeated redo-ifchange with no change ran scripts", "step": i, "cmd": " ".join(t), "trace": trace})
             last_build = (i, ts, rc)
+            last_any_failed = any(c != 0 for c in dones.values())
             edits_since_build = False
         else:
             # query command
-            if "query" in want and res.startswith("list="):
+            if ("query" in want or "fail" in want) and res.startswith("list="):
                 counted["query_checked"] += 1
                 names = lst(res[5:]) if res[5:] else []
                 prev_lists[t[1]] = names
-                if "targets" in prev_lists and "sources" in prev_lists:
+                if "query" in want and "targets" in prev_lists and "sources" in prev_lists:
                     both = set(prev_lists["targets"]) & set(prev_lists["sources"])
                     if both:
                         fails.append({"oracle": "redo-targets and redo-sources overlap", "step": i, "names": sorted(both)})
-                if t[1] == "ood" and last_build is not None and not edits_since_build and last_build[2] == 0 and last_build[0] == i - 1:
+                if t[1] == "ood" and "fail" in want and last_build is not None and not edits_since_build and last_build[0] == i - 1:
+                    for n, ds in tolerated_prev.items():
+                        rl = tr.rule_for(n)
+                        if rl and tr.scripts[rl]["out"] in ("S", "3") and n not in names:
+                            fails.append({"oracle": "redo-ood does not list a target whose dependency failed in the last build", "step": i,
+                                          "target": n, "failed_deps": ds, "listed": names})
+                if "query" in want and t[1] == "ood" and last_build is not None and not edits_since_build and last_build[2] == 0 \
+                        and last_build[0] == i - 1 and not last_any_failed:
                     built = set(tr.closure(last_build[1]))
                     bad = [n for n in names if n in built and not any(s["always"] for s in tr.scripts.values())]
                     if bad:
